@@ -4,7 +4,8 @@
    builder.rs, predicate.rs; tied to the code by the correspondence run); classes: Model/AggClass.v. *)
 From Coq Require Import ZArith List Bool.
 From TV Require Import Model.SqlSpecAgg Model.AggImpl Model.AggClass Model.AggJoin
-  Proof.AggFold Proof.AggFoldSpec Proof.AggRefute Proof.AggKeys Proof.AggGroups Proof.AggGroupsMain.
+  Proof.AggFold Proof.AggFoldSpec Proof.AggRefute Proof.AggKeys Proof.AggGroups Proof.AggGroupsMain
+  Proof.AggQuery3.
 Import ListNotations.
 Open Scope Z_scope.
 
@@ -24,6 +25,24 @@ Check agg_fold_spec :
     agg_vals f vs = AVal v ->
     exists s, fold_upd (kind_of_fn f) st0 (map Some vs) = SOk s /\ fin (kind_of_fn f) s = v.
 Print Assumptions agg_fold_spec.
+
+(* the whole query: for EVERY query (WHERE, 0..n plain-column keys, any list of aggregates over plain
+   columns, any select list over them, HAVING over the keys and the selected aggregates) and EVERY
+   table outside the recorded classes on which the reference makes a demand, the faithful model of
+   TurDB's execution returns exactly the rows the reference demands: one row per distinct key
+   (NULL keys one group), one row for an empty input without GROUP BY and none with, COUNT / SUM / AVG /
+   MIN / MAX as specified, HAVING keeping a group iff its predicate is TRUE (SUM / AVG over integers;
+   over doubles the run against the implementation is the only check) *)
+Theorem query_correct :
+  forall q t rs,
+    q_class q t = 0 -> q_int_sums q t = true ->
+    spec_query q t = SRows rs -> model_query q t = MRows rs.
+Proof. exact Proof.AggQuery3.query_correct. Qed.
+Check query_correct :
+  forall q t rs,
+    q_class q t = 0 -> q_int_sums q t = true ->
+    spec_query q t = SRows rs -> model_query q t = MRows rs.
+Print Assumptions query_correct.
 
 (* GROUP BY over plain columns (each key column of one kind): whenever HashAggregate gets through,
    its table IS the reference grouping -- one entry per distinct key in order of first occurrence
@@ -164,3 +183,17 @@ Example groups_partition_nonvacuous :
     map (fun e : gentry => snd (fst e) ++ finalize_all [MCount; MSum 0%nat] (snd e)) tbl =
       [[VNull; VInt 2; VInt 4]; [VInt 7; VInt 2; VInt 7]; [VInt 0; VInt 1; VInt 4]].
 Proof. cbv zeta. split; [reflexivity|]. eexists; eexists. repeat split; vm_compute; reflexivity. Qed.
+
+(* non-vacuity of query_correct: NULL keys, NULLs under SUM / MIN, HAVING over a selected aggregate *)
+Example query_correct_nonvacuous :
+  let t := [[VInt 1; VNull; VInt 5]; [VInt 2; VNull; VInt 7]; [VInt 3; VInt 1; VInt 2];
+            [VInt 4; VInt 1; VNull]; [VInt 5; VInt 2; VInt 3]] in
+  let q := mkQ (Some (ECmp CGt (ECol 0) (ELit (VInt 0)))) [ECol 1]
+               [mkAgg FCountStar (ECol 0); mkAgg FSum (ECol 2); mkAgg FMin (ECol 2); mkAgg FAvg (ECol 2)]
+               [0%nat; 1%nat; 2%nat; 3%nat]
+               (Some (ECmp CGt (ECol 1) (ELit (VInt 1)))) in
+  q_class q t = 0 /\ q_int_sums q t = true /\
+  spec_query q t = SRows [[VNull; VInt 2; VInt 12; VInt 5]; [VInt 1; VInt 2; VInt 2; VInt 2]] /\
+  (let q0 := mkQ None [] [mkAgg FCountStar (ECol 0); mkAgg FMax (ECol 1)] [0%nat; 1%nat] None in
+   q_class q0 [] = 0 /\ q_int_sums q0 [] = true /\ spec_query q0 [] = SRows [[VInt 0; VNull]]).
+Proof. cbv zeta. repeat split; vm_compute; reflexivity. Qed.
